@@ -153,6 +153,13 @@ theorem no_stranded_sender (s0 : St) (hf : Fresh s0) (as : List Act) (hpl : Plai
   obtain ⟨_, hinv, _⟩ := run_ok hf as hpl
   exact hinv.parked sr it h
 
+/-- **A cancelled call stays where it is.** Cancelling the context of a call in flight (the client gave up) changes
+nothing: a sender parked behind its barrier stays parked — its post-barrier event cannot slip in before the
+capture — and all theorems above hold for schedules with cancellations (`cancel` is a plain action). -/
+theorem cancel_changes_nothing (s : St) (sr : Nat) : step s (Act.cancel sr) = (s, []) := by
+  unfold step
+  split <;> rfl
+
 /-! ## epochs: the initial state and every redeploy start a fresh epoch -/
 
 theorem init_is_fresh (k b : Nat) : Fresh (init k b) := init_fresh k b
